@@ -4,35 +4,35 @@
     [eb_full]); tied to the real decoder by harness/h_eb.cc (exact equality of the final tables on valid and hostile scripts).
     This file only restates theorems of Proofs/Edgebreaker_proofs.v.
 
-    STATUS
-      C02_eb_terminates            proved (S-case SwingLeft loop + start-face phase, every input)
-      C03_eb_accept_valid_partial  proved for the table at the end of the start-face phase (before the vertex compaction)
-      C03_eb_opposite_edges_refuted, C03_eb_degenerate_faces_refuted   proved (witnesses; reproduced on the real decoder)
-      C02_eb_no_oob                proved: eb_full (header guards + state machine) never yields OOB, no hypothesis at all
-      C03_eb_fan_invariant         proved: the loop invariant (fans) holds after every accepted symbol prefix
-      guard lemmas                 two guards of the C case are implied by the invariants (their mutants are equivalent)
-    NOT proved: the statement about the table AFTER the vertex compaction (ids < returned count, left-most corners),
-    termination of the VertexCornersIterator walk inside the compaction, AssignPointsToCorners. *)
+    STATUS (all proved, closed under the global context, for ALL symbol lists / split events / start-face bits / counts)
+      C02_eb_terminates     the whole run (S-case SwingLeft loop, start faces, VertexCornersIterator walks of the compaction) never
+                            exhausts its fuel; C02_eb_no_oob: never indexes out of range
+      C03_eb_accept_valid   the table RETURNED by an accepted run: ids < returned count, Opposite involutive between different faces,
+                            vertex_corners_ consistent, (position-only) every vertex below the count non-isolated
+      C03_eb_faces_valid    position-only streams: every face of the decoded Mesh refers to three point ids < num_points
+      C03_eb_fan_invariant, guard lemmas, C03_eb_*_refuted (which degeneracies are accepted)
+      C03_eb_faces_valid_attributes   the same with attribute connectivity data, for arbitrary attribute corner tables
+    NOT proved: OOB-freedom / termination of the deduplication walks of AssignPointsToCorners (tied + searched);
+    MeshAttributeCornerTable (RecomputeVertices) is not modelled. *)
 From Coq Require Import ZArith List Bool.
-From Draco Require Import Model.Edgebreaker Proofs.Edgebreaker_proofs Proofs.Edgebreaker_fan_proofs Proofs.Edgebreaker_oob_proofs.
+From Draco Require Import Model.Edgebreaker Proofs.Edgebreaker_proofs Proofs.Edgebreaker_fan_proofs Proofs.Edgebreaker_oob_proofs Proofs.Edgebreaker_compact_proofs.
 Import ListNotations.
 Local Open Scope Z_scope.
 
-(** ** C02: termination.
-    For every symbol list (any integers), every split-event list, every declared face count nf >= number of symbols (the
-    caller's guard, line 342: see [C02_eb_caller_guard]) and every vertex budget, the symbol loop - including the S-case
-    loop `while (corner_n != kInvalid) { ...; corner_n = SwingLeft(corner_n); if (corner_n == first_corner) return -1; }`
-    run with fuel = number of corners + 1 - and the start-face phase never exhaust their fuel.
-    Not covered: the VertexCornersIterator walk inside the final vertex compaction (its fuel is tied by correspondence
-    and searched with a watchdog only). *)
-Theorem C02_eb_terminates : forall nf maxv rm syms events bits, 0 <= nf -> 0 <= maxv ->
-  Z.of_nat (length syms) <= nf ->
-  sym_loop (3 * nf) maxv rm (Z.of_nat (length syms)) syms 0 (init_st events) <> Fuel /\
-  eb_pre (3 * nf) maxv nf rm syms events bits <> Fuel.
-Proof.
-  intros. split; [apply eb_symbol_phase_terminates | apply eb_pre_terminates]; assumption.
-Qed.
+(** ** C02: termination.  No loop of DecodeConnectivity() runs away: the S-case loop
+    `while (corner_n != kInvalid) { ...; corner_n = SwingLeft(corner_n); if (corner_n == first_corner) return -1; }`
+    (fuel = number of corners + 1), the start-face phase, the `while (LeftMostCorner(src_vert) == kInvalid)` search and the
+    VertexCornersIterator walk of the compaction (left traversal, then right traversal with NO end test in the C++: it cannot
+    cycle because SwingRight is injective and the left traversal died) - for every input, through the header guards. *)
+Theorem C02_eb_terminates : forall nev nf nsplit rm syms events bits,
+  eb_full nev nf nsplit rm syms events bits <> Fuel.
+Proof. exact eb_full_terminates. Qed.
 Print Assumptions C02_eb_terminates.
+
+Theorem C02_eb_core_terminates : forall nf maxv rm syms events bits, 0 <= nf -> 0 <= maxv -> Z.of_nat (length syms) <= nf ->
+  eb_core (3 * nf) maxv nf rm syms events bits <> Fuel.
+Proof. exact eb_core_terminates. Qed.
+Print Assumptions C02_eb_core_terminates.
 
 (** The state machine is only ever entered with num_symbols <= num_faces and a vertex budget in [0, 2^32) (the guards of
     DecodeConnectivity()); no hypothesis on the declared counts. *)
@@ -43,33 +43,53 @@ Theorem C02_eb_caller_guard : forall nev nf nsplit rm syms events bits, 0 <= nf 
 Proof. exact eb_full_guard. Qed.
 Print Assumptions C02_eb_caller_guard.
 
-(** ** C03: what holds of an accepted run.
-    FULL statement wanted: if [eb_core] returns (n, s) then in the FINAL table every corner maps to a vertex id < n, Opposite
-    is a fixed-point-free involution between different faces, every vertex below n is non-isolated and its left-most
-    corner is one of its corners.
-    PROVED (partial): the run factors as [eb_pre] (symbol loop, start faces, face-count test) followed by the vertex
-    compaction, and the table s0 handed to the compaction has: all nf faces created; every corner maps to an allocated
-    vertex (< num_vertices() <= max_num_vertices); Opposite is -1 or a corner of a DIFFERENT face with opp(opp c) = c;
-    every vertex_corners_ entry is -1 or a valid corner; the recorded invalid vertices are allocated vertices.
-    (The compaction does not write opposite_corners_, so the Opposite clause is also the final one - by inspection of
-    [compact]/[vcit_loop], not restated as a theorem.)
-    The fan invariant of the symbol loop is now proved (C03_eb_fan_invariant below): at the end of the symbol loop the
-    left-most corner of every non-isolated vertex is a corner of it and no corner maps to an isolated vertex.
-    MISSING: carrying it through the compaction (that VertexCornersIterator visits every corner of src_vert, its
-    termination, and the final clause "every corner id < returned count"), and AssignPointsToCorners. *)
-Theorem C03_eb_accept_valid_partial : forall nf maxv rm syms events bits n sf, 0 <= nf -> 0 <= maxv ->
-  Z.of_nat (length syms) <= nf ->
-  eb_core (3 * nf) maxv nf rm syms events bits = Ok (n, sf) ->
-  exists s0 k, eb_pre (3 * nf) maxv nf rm syms events bits = Ok s0 /\
-    compact (3 * nf) maxv (rev (invalid s0)) (Z.to_nat (nv s0)) s0 = Ok (k, sf) /\ n = Z.of_nat k /\
-    nfaces s0 = nf /\ 0 <= nv s0 <= maxv /\
-    (forall c, 0 <= c < 3 * nf -> 0 <= c2v s0 c < nv s0) /\
-    (forall c, 0 <= c < 3 * nf -> copp s0 c = -1 \/
-       (0 <= copp s0 c < 3 * nf /\ copp s0 (copp s0 c) = c /\ copp s0 c <> c /\ copp s0 c / 3 <> c / 3)) /\
-    (forall v, 0 <= v < nv s0 -> vc s0 v = -1 \/ 0 <= vc s0 v < 3 * nf) /\
-    Forall (fun v => 0 <= v < nv s0) (invalid s0).
-Proof. exact eb_accept_partial. Qed.
-Print Assumptions C03_eb_accept_valid_partial.
+(** ** C03: the table returned by an accepted run (n = returned vertex count = the Mesh's num_points when there is no
+    attribute connectivity data; rm = remove_invalid_vertices = attribute_data_.empty()):
+      - every corner of every face maps to a vertex id in [0, n), and that vertex is not isolated;
+      - Opposite(c) is -1 or a corner of a DIFFERENT face with Opposite(Opposite(c)) = c (no fixed point);
+      - vertex_corners_[v], when not -1, is a valid corner that maps to v (left-most corner is a corner of that vertex);
+      - n <= num_vertices() of the table; if rm, every vertex below n is non-isolated (the compaction removed all isolated ones).
+    What is NOT guaranteed is stated by the two _refuted theorems below. *)
+Theorem C03_eb_accept_valid : forall nev nf nsplit rm syms events bits n sf,
+  eb_full nev nf nsplit rm syms events bits = Ok (n, sf) ->
+  0 <= n <= nv sf /\
+  (forall c, 0 <= c < 3 * nf -> 0 <= c2v sf c < n /\ vc sf (c2v sf c) <> -1) /\
+  (forall c, 0 <= c < 3 * nf -> copp sf c = -1 \/
+       (0 <= copp sf c < 3 * nf /\ copp sf (copp sf c) = c /\ copp sf c <> c /\ copp sf c / 3 <> c / 3)) /\
+  (forall v, 0 <= v < nv sf -> vc sf v <> -1 -> 0 <= vc sf v < 3 * nf /\ c2v sf (vc sf v) = v) /\
+  (rm = true -> forall v, 0 <= v < n -> vc sf v <> -1).
+Proof. exact eb_full_accept. Qed.
+Print Assumptions C03_eb_accept_valid.
+
+(** ** C03, the property's wording for Edgebreaker connectivity without attribute connectivity data: DecodeConnectivity()
+    = header guards + state machine + AssignPointsToCorners (position-only path: face f = the three vertex ids of its corners,
+    num_points = returned count).  On accept every face index is a point of the mesh; the run neither indexes out of range nor
+    hangs.
+    The path with attribute connectivity data is C03_eb_faces_valid_attributes below. *)
+Theorem C03_eb_faces_valid : forall nev nf nsplit syms events bits np fl,
+  eb_decode_mesh nev nf nsplit syms events bits = Ok (np, fl) ->
+  Forall (fun i => 0 <= i < np) fl.
+Proof. exact eb_decode_mesh_faces_valid. Qed.
+Print Assumptions C03_eb_faces_valid.
+
+(** The same with attribute connectivity data: header guards + state machine (remove_invalid_vertices = false) +
+    AssignPointsToCorners' DEDUPLICATION path (model: [assign_points_seam], tied to the real decoder on hostile scripts with
+    hostile seam bits, harness kind apc).  The attribute corner tables are arbitrary (IsCornerOnSeam, Vertex) function pairs:
+    whatever they are, on accept every face index is a point.  (The argument: corner_to_point_map holds 0 or an id below the
+    number of points created so far, and at least one point is created because corner 0 maps to a non-isolated vertex.)
+    Proved only in this direction: that the deduplication walks themselves never index out of range and terminate is tied by
+    correspondence and searched under ASan with a watchdog, not proved; MeshAttributeCornerTable::RecomputeVertices is not
+    modelled (its output is the input here). *)
+Theorem C03_eb_faces_valid_attributes : forall nev nf nsplit syms events bits atts np fl,
+  eb_decode_mesh_att nev nf nsplit syms events bits atts = Ok (np, fl) ->
+  Forall (fun i => 0 <= i < np) fl.
+Proof. exact eb_decode_mesh_att_faces_valid. Qed.
+Print Assumptions C03_eb_faces_valid_attributes.
+
+Theorem C02_eb_decode_mesh_total : forall nev nf nsplit syms events bits,
+  eb_decode_mesh nev nf nsplit syms events bits <> OOB /\ eb_decode_mesh nev nf nsplit syms events bits <> Fuel.
+Proof. exact eb_decode_mesh_total. Qed.
+Print Assumptions C02_eb_decode_mesh_total.
 
 (** Which degeneracies are NOT rejected (both reproduced on the real decoder, harness kind core/full, same tables):
     (1) an interior start face is glued to the three boundary edges that LeftMostCorner leads to without comparing vertices
@@ -155,6 +175,10 @@ Proof. vm_compute. reflexivity. Qed.
 Example eb_torus3x3 :
   run_faces 54 13 18 [7;7;7;1;3;5;1;1;5;0;1;0;5;0;0;0;0] [(15, 9, 1); (16, 6, 1)] [true] =
   (9, [0;3;2;3;4;5;0;5;8;5;4;8;4;2;8;8;2;1;2;3;1;3;5;1;1;5;6;5;0;6;0;2;6;2;4;6;6;4;7;4;3;7;3;0;7;0;8;7;8;1;7;6;7;1]).
+Proof. vm_compute. reflexivity. Qed.
+
+Example eb_decode_mesh_tetrahedron :
+  eb_decode_mesh 4 4 0 [7; 5; 0] [] (bits_of_list [true]) = Ok (4, [0;1;2; 2;1;3; 1;0;3; 2;3;0]).
 Proof. vm_compute. reflexivity. Qed.
 
 (** a hostile script is rejected cleanly: S joining a boundary loop to itself returns to first_corner *)
